@@ -105,11 +105,15 @@ def install_stubs():
     _patch_fit()
 
 
+FIT_CALLS = []
+
+
 def _patch_fit():
     import darsia.corrections.shape.affine as aff
 
     def fit(self, pts_src, pts_dst, fit_options={}):
         # the optimiser is outside the claim: the harness supplies the parameters
+        FIT_CALLS.append((pts_src, pts_dst, dict(fit_options)))
         self.set_dtype(pts_src, pts_dst)
         self.isometry = fit_options.get("isometry", False)
         self.set_parameters_as_vector(PARAMS["vector"])
@@ -153,6 +157,10 @@ def configs(tier):
     for src, dst in (([3, 4], [6, 8]), ([4, 4], [2, 2]), ([3, 4], [3, 4]), ([2, 3], [4, 3])):
         out.append(dict(kind="resample", src=src, dst=dst, via="correction"))
         out.append(dict(kind="resample", src=src, dst=dst, via="coordinate_transformation"))
+    # what AffineCorrection hands to the fit: with isometry the points travel as physical coordinates, each in ITS system
+    for dim in (2, 3):
+        for iso in (True, False):
+            out.append(dict(kind="fit_inputs", dim=dim, isometry=iso))
     return out
 
 
@@ -183,6 +191,46 @@ def _as_param(cs):
     return math.atan2(S.tofloat(s), S.tofloat(c))
 
 
+def body_fit_inputs(cfg, darsia):
+    from . import oracles as O
+
+    dim = cfg["dim"]
+    orient = O.ORIENT[dim]
+    sh_s, sh_d = ((2, 3), (3, 4)) if dim == 2 else ((2, 2, 3), (3, 2, 4))
+
+    def system(tag, shape):
+        dims = [S.real(f"{tag}d{m}", lo="1/10", hi=10) for m in range(dim)]
+        org = [S.real(f"{tag}o{m}", lo=-5, hi=5) for m in range(dim)]
+        im = darsia.Image(np.zeros(shape), dimensions=list(dims), origin=list(org), space_dim=dim, scalar=True)
+        return im.coordinatesystem, dims, org, shape
+
+    cs_s, d_s, o_s, _ = system("s", sh_s)
+    cs_d, d_d, o_d, _ = system("t", sh_d)
+    vs = np.array([[0] * dim, [1] * dim, [1, 0, 1][:dim]])
+    vd = np.array([[1] * dim, [2] * dim, [0, 1, 2][:dim]])
+    PARAMS["vector"] = [0.0] * (dim + (1 if dim == 2 else 3)) + ([] if cfg["isometry"] else [1.0])
+    del FIT_CALLS[:]
+    darsia.AffineCorrection(cs_s, cs_d, darsia.make_voxel(vs), darsia.make_voxel(vd), fit_options={"isometry": cfg["isometry"]})
+    ps, pd, opts = FIT_CALLS[-1]
+
+    def centres(vox, dims, org, shape):
+        out = []
+        for v in vox:
+            c = [0] * dim
+            for m in range(dim):
+                a, sg = orient[m]
+                c[a] = org[a] + sg * (int(v[m]) + S.const("1/2")) * dims[m] / shape[m]
+            out.append(c)
+        return out
+
+    if cfg["isometry"]:
+        S.claim("isometry_fit_receives_source_points_as_coordinates_of_the_source_system", S.eq([list(x) for x in np.asarray(ps)], centres(vs, d_s, o_s, sh_s)))
+        S.claim("isometry_fit_receives_destination_points_as_coordinates_of_the_destination_system", S.eq([list(x) for x in np.asarray(pd)], centres(vd, d_d, o_d, sh_d)))
+    else:
+        S.claim("voxel_fit_receives_the_points_unchanged", S.and_(bool(np.array_equal(np.asarray(ps), vs)), bool(np.array_equal(np.asarray(pd), vd))))
+    S.claim("fit_options_are_passed_on", opts.get("isometry", False) == cfg["isometry"])
+
+
 def body(cfg):
     import darsia
 
@@ -196,6 +244,8 @@ def body(cfg):
         return body_rotcorr(cfg, darsia)
     if k == "warp":
         return body_warp(cfg, darsia)
+    if k == "fit_inputs":
+        return body_fit_inputs(cfg, darsia)
     return body_resample(cfg, darsia)
 
 
